@@ -19,6 +19,10 @@ Steps (lists, JSON-friendly):
   ["close"]                     FIN without close_notify (what a crashing server does)
   ["close_notify"]              TLS shutdown, then close
   ["reset"]                     SO_LINGER 0 + close: the client sees a TCP reset
+  ["append_certs", [names]]     only as the FIRST step (behind a "hold" of client_holdpeer): the peer's Certificate message carries, after
+                                its own certificate (the script's `cert`, whose key it holds), copies of the named certificates of the
+                                CertStore, in this order - an unverified "chain" of the peer's choosing (it needs no key for them).  The
+                                log entry keeps `cert` = the peer's own certificate and gets `chain` = [cert, *names]
 A script that runs out of steps closes the connection.
 
 Log: read it with `take_log()` only — it first waits until every handler thread has finished
@@ -110,9 +114,12 @@ class CertStore:
         try:
             self.certs: dict[str, CertInfo] = {}
             self._ctx: dict[str, ssl.SSLContext] = {}
+            self._pem: dict[str, tuple[bytes, bytes]] = {}       # name -> (certificate PEM, key PEM), for `chain_ctx`
+            self._chain_lock = threading.Lock()
             for n in names:
                 kind, hostile, validity = self.KINDS[n]
                 self.certs[n] = _make_cert(kind, d, n, hostile, validity)
+                self._pem[n] = (Path(self.certs[n].certfile).read_bytes(), Path(self.certs[n].keyfile).read_bytes())
                 c = ssl.SSLContext(ssl.PROTOCOL_TLS_SERVER)
                 c.minimum_version = ssl.TLSVersion.TLSv1_2
                 c.num_tickets = 0   # no post-handshake records: the peer's byte log is application data only
@@ -134,7 +141,40 @@ class CertStore:
         return self.certs[name]
 
     def ctx(self, name: str) -> ssl.SSLContext:
+        if name not in self._ctx and "+" in name:
+            return self.chain_ctx(name.split("+"))
         return self._ctx[name]
+
+    def pem(self, name: str) -> tuple[bytes, bytes]:
+        """(certificate PEM, key PEM) of a certificate of the store (also of one added later with its files still on disk)"""
+        if name not in self._pem:
+            ci = self.certs[name]
+            self._pem[name] = (Path(ci.certfile).read_bytes(), Path(ci.keyfile).read_bytes())
+        return self._pem[name]
+
+    def chain_ctx(self, names) -> ssl.SSLContext:
+        """server context of a peer that holds the key of names[0] and presents names[0] FOLLOWED BY copies of the certificates
+        names[1:] in its Certificate message (OpenSSL sends the extra certificates as they are given: nothing ties them to the
+        first one, and the peer has no key for them).  Cached under "a+b+c"; `ctx("a+b+c")` finds it."""
+        names = list(names)
+        key = "+".join(names)
+        with self._chain_lock:
+            c = self._ctx.get(key)
+            if c is not None:
+                return c
+            d = tempfile.mkdtemp(prefix="nv-chain-")
+            try:
+                leaf_pem, key_pem = self.pem(names[0])
+                Path(d, "chain.pem").write_bytes(leaf_pem + b"".join(self.pem(n)[0] for n in names[1:]))
+                Path(d, "leaf.key").write_bytes(key_pem)
+                c = ssl.SSLContext(ssl.PROTOCOL_TLS_SERVER)
+                c.minimum_version = ssl.TLSVersion.TLSv1_2
+                c.num_tickets = 0
+                c.load_cert_chain(f"{d}/chain.pem", f"{d}/leaf.key")
+            finally:
+                shutil.rmtree(d, ignore_errors=True)
+            self._ctx[key] = c
+            return c
 
     def x509(self, name: str):
         from cryptography import x509
@@ -314,6 +354,21 @@ class TLSPeer:
                 pass
 
     def _handle(self, raw: socket.socket, script: dict, entry: dict) -> None:
+        steps = script.get("steps") or []
+        if steps and steps[0] and steps[0][0] == "append_certs":
+            # the peer's own certificate followed by copies of other certificates: `cert` stays the peer's own one
+            extra = [str(n) for n in steps[0][1]]
+            entry["chain"] = [script["cert"]] + extra
+            script = dict(script, steps=list(steps[1:]))
+            if extra:
+                try:
+                    self.certs.chain_ctx([script["cert"]] + extra)
+                except Exception as e:  # noqa: BLE001  (harness bug: make it visible in the log)
+                    entry["err"] = f"script: append_certs: {type(e).__name__}: {e}"
+                    with contextlib.suppress(Exception):
+                        raw.close()
+                    return
+                script["cert"] = "+".join([script["cert"]] + extra)
         if script.get("with_finished") is not None:
             return self._handle_bio(raw, script, entry)
         conn = None
